@@ -93,11 +93,14 @@ impl ElixirRange {
         if self.is_empty() {
             return false;
         }
-        if self.step > 0 {
-            value >= self.first && value <= self.last && (value - self.first) % self.step == 0
+        let within_bounds = if self.step > 0 {
+            value >= self.first && value <= self.last
         } else {
-            value <= self.first && value >= self.last && (self.first - value) % (-self.step) == 0
-        }
+            value <= self.first && value >= self.last
+        };
+        // The distance from `first` can exceed `i64::MAX` and the step can be `i64::MIN`:
+        // take both as unsigned.
+        within_bounds && value.abs_diff(self.first) % self.step.unsigned_abs() == 0
     }
 
     /// Parses an OwnedTerm as a Range struct.
